@@ -2099,6 +2099,19 @@ pub fn c17(g: &mut Gen) {
             }
         }
     }
+    // overlapping / nested loop connections: the closing layer of one loop lies inside the range of another (each loop
+    // still repeats its own range its own number of times, whatever the per-layer `loops` counters have grown to)
+    for acc in ACCS.iter() {
+        for (l1, l2) in [((0usize, 0usize, 2usize), (1usize, 0usize, 1usize)), ((1, 1, 1), (2, 0, 2)), ((2, 1, 2), (3, 0, 1)), ((1, 0, 1), (2, 1, 3))] {
+            if !g.ctx.thorough() && *acc != "add" && l1.0 == 2 { continue; }
+            let (mut net, _) = skip_net(g, &cfg, 4, 3, false);
+            net.builds.push(Build::Loopback { outof: l1.0, into: l1.1, iterations: l1.2, scale: "inv".into(), inskips: false });
+            net.builds.push(Build::Loopback { outof: l2.0, into: l2.1, iterations: l2.2, scale: "inv".into(), inskips: false });
+            net.loopacc = acc.to_string();
+            let x = input_for(g, &net.input);
+            g.push(format!("net {} predict {}", net.token(), qt(&x)), Tol::Tight, &format!("overlapping-loops/{}", acc), true);
+        }
+    }
     // validation of indices and shapes
     let (mut net, _) = skip_net(g, &cfg, 3, 3, false);
     net.builds.push(Build::Loopback { outof: 0, into: 1, iterations: 1, scale: "inv".into(), inskips: false });
